@@ -1,6 +1,6 @@
 """Shared definitions of the property files."""
 ALL_CONTRACTS = ["contracts.geometry", "contracts.axis", "contracts.state", "contracts.plugin", "contracts.motion",
-                 "contracts.parserstub", "contracts.handlers", "contracts.deferred", "contracts.stream", "contracts.format"]
+                 "contracts.parserstub", "contracts.handlers", "contracts.deferred", "contracts.stream", "contracts.format", "contracts.parser"]
 S = "ExcludeRegionState.ExcludeRegionState."
 H = "GcodeHandlers.GcodeHandlers."
 P = "__init__.ExcludeRegionPlugin."
